@@ -272,11 +272,8 @@ var positions = []position{
 	{Name: "object-field", Stmt: `new { a: n, d: {D} };`, Strict: true},
 	// (`l[{D}]` is rejected by the analyzer: a list cannot be indexed by never)
 	{Name: "range-end", Stmt: `for i in 0..{D} { println(i); }`, Strict: true},
-	// `let v = {D};` is left out: GENUINE DEFECT of the unchanged tree — the analysed-tree printer
-	// annotates the let with the inferred type and writes `let v: never = …`, which is rejected
-	// ("Illegal use of undeclared type 'never'"); same family as the open finding
-	// KF-c19-aast-let-type-unrepresentable, see FINDINGS.md. Put the line back once that is fixed:
-	// {Name: "let", Stmt: `let v = {D};`, Strict: true},
+	// (the analysed-tree printer used to write `let v: never = …` here: repaired in /repo)
+	{Name: "let", Stmt: `let v = {D};`, Strict: true},
 	{Name: "let-typed", Stmt: `let v: int = {D};`, Strict: true},
 	{Name: "assign", Stmt: `x = {D};`, Strict: true},
 	{Name: "assign-op", Stmt: `x += {D};`, Strict: true},
